@@ -22,7 +22,21 @@ def base_model(rnd):
 def gen_copy_case(tier, seed, k):
     rnd = run.rng("C16", tier, seed, "copy", k)
     m = base_model(rnd)
-    L = model.script_any(m, "p0", rnd)
+    files = {}
+    if rnd.random() < 0.3 and m.nrows and m.ncols:
+        # the original comes from a file: this is the only way to have integer marks (and SOS sets) on a problem
+        m = iofam.io_model(rnd, "plain")
+        lp = rnd.random() < 0.5
+        text, exp = (iofmt.lp_text(m, rnd, allnamed=True) if lp else iofmt.mps_text(m, rnd))
+        if any(r.name is None for r in exp.rows) or any(c.name is None for c in exp.cols):
+            text, exp = iofmt.mps_text(m, rnd)
+            lp = False
+        fn = "src.lp" if lp else "src.mps"
+        files[fn] = text.encode()
+        m = exp
+        L = ["read_prob p0 @W@/%s %s" % (fn, "LP" if lp else "MPS"), "dumpx p0"]
+    else:
+        L = model.script_any(m, "p0", rnd)
     cfg = sf.rnd_config(rnd, limits=False, bases=False)
     cfg["entry"] = "opt_primal"
     L += sf.param_lines(cfg, "p0")
@@ -58,11 +72,15 @@ def gen_copy_case(tier, seed, k):
         if t < 0.55:
             op = None
             for _ in range(10):
-                op = gen_hist.rnd_edit(rnd, gm[s], nms[s], 0.55)
+                # the column order and the dropped empty rows of a problem read from a file are the reader's business (C10):
+                # index-based edits cannot be generated offline for it, appended columns can
+                op = gen_hist.rnd_edit(rnd, gm[s], nms[s], 0.55, [("new_col", 1)] if files else None)
                 if op is not None:
                     break
             if op is None:
                 continue
+            if files and op[-1] is not None:
+                op = op[:-1] + ("ZQ" + op[-1],)
             gm[s].apply(op)
             L.append(render(op, s))
         elif t < 0.75:
@@ -82,7 +100,7 @@ def gen_copy_case(tier, seed, k):
             L.append("dump %s" % a)
     for a in sorted(alive):
         L += ["dumpx %s" % a, "storecheck %s" % a]
-    return run.Case("C16-copy-%d" % k, L, dict(kind="copy", twins=twins))
+    return run.Case("C16-copy-%d" % k, L, dict(kind="copy", twins=twins, fromfile=bool(files)), files)
 
 
 def gen_conv_case(tier, seed, k):
@@ -147,6 +165,11 @@ def judge(case, res):
                     V.append(("C16|copy|failed", "QScopy_prob returned NULL at line %d" % ln))
                     break
             elif cmd in ("dump", "dumpx"):
+                if m is None and (case.meta or {}).get("fromfile") and ev.get("rc") == 0:
+                    # a problem read from a file: what the reader delivered is the reference from here on
+                    models[slot] = m = model.from_dump(ev)
+                    C["fromfile"] = C.get("fromfile", 0) + 1
+                    C["fromfile:intcols"] = C.get("fromfile:intcols", 0) + sum(1 for c in m.cols if c.isint)
                 bad = model.compare_dump(m, ev)
                 if bad:
                     V.append(("C16|%s|%s" % (slot, iofam.hist_cls(bad[0])), "line %d: %s differs from its own model (interference or unfaithful copy): %s" % (ln, slot, "; ".join(bad[:3])[:700])))
